@@ -104,6 +104,10 @@ var blocksMode = false
 // manyBatches: a relayer that is far behind: more than 100 batches of one token wait on one chain (what a
 // paginated accessor would cut off)
 var manyBatches = false
+
+// consistentExec: with -hostile, keep the reported executions within what the external side can do (a custody
+// ledger is only meaningful for executions the custody could have made)
+var consistentExec = false
 var lastCaseHashes []string
 var lastCaseShadowDiff = -1
 
@@ -278,6 +282,32 @@ func runHubCase(seed uint64, nOps int, hostile bool, gov bool, restart bool, sta
 		}
 		return l
 	}
+	// what the custodies hold stays representable: the hub value of everything deposited of one asset is kept below
+	// 2^255 (a deposit that would go beyond is made small). With that -- and supply + in flight <= deposits (C01) --
+	// the bank's 256-bit arithmetic cannot overflow in a mint; assets whose locked value exceeds 2^256 hub units are
+	// outside what the bridge can represent at all.
+	deposited := map[string]*big.Int{}
+	capDeposit := func(t *types.TokenInfo, amt *big.Int) *big.Int {
+		if t == nil || amt.Sign() <= 0 {
+			return amt
+		}
+		hv := new(big.Int).Set(amt)
+		if d := int(t.ExternalDecimals); d <= 18 {
+			hv.Mul(hv, pow10(18-d))
+		} else {
+			hv.Div(hv, pow10(d-18))
+		}
+		cur := deposited[t.Denom]
+		if cur == nil {
+			cur = new(big.Int)
+		}
+		if new(big.Int).Add(cur, hv).Cmp(pow2(255)) >= 0 {
+			amt = new(big.Int).Mul(big.NewInt(int64(1+rng.Intn(900))), pow10(int(t.ExternalDecimals)))
+			hv = new(big.Int).Mul(big.NewInt(1000), pow10(18))
+		}
+		deposited[t.Denom] = new(big.Int).Add(cur, hv)
+		return amt
+	}
 	extChains := []string{"ethereum", "minter", "bsc"}
 	nextEvent := func(ch string) (uint64, uint64) {
 		run.nextNonce[ch]++
@@ -306,6 +336,7 @@ func runHubCase(seed uint64, nOps int, hostile bool, gov bool, restart bool, sta
 	funding := 2 + rng.Intn(4)
 	burstsLeft := 3
 	foreignLeft := 1
+	nonMonoLeft := 1
 	catchupLeft := 1
 	quietLeft := 1
 	manyDone := false
@@ -527,6 +558,69 @@ func runHubCase(seed uint64, nOps int, hostile bool, gov bool, restart bool, sta
 			}
 			continue
 		}
+		if !blocksMode && !genesisMode && !inBlock && nonMonoLeft > 0 && funding == 0 && rng.Chance(1, 8) {
+			// timeouts that are not monotone in the nonce: batch A is built after a long quiet stretch (its timeout is
+			// projected far ahead), then a real height only slightly above the last one is observed, batch B of the same
+			// token gets an earlier timeout, and a height between the two timeouts is observed: B is dead, A is not
+			nonMonoLeft--
+			var t *types.TokenInfo
+			u := 0
+			for _, c := range tokens {
+				for i := 0; i < 3; i++ {
+					if (c.ChainId == "ethereum" || c.ChainId == "bsc") && env.Bank.GetBalance(env.Ctx, userAddr(i), c.Denom).Amount.BigInt().Cmp(pow10(9)) > 0 {
+						t, u = c, i
+					}
+				}
+			}
+			if t != nil {
+				ch := t.ChainId
+				blk := func() {
+					height++
+					timeMs += 5000
+					do(&HubOp{Kind: 5, Height: height, TimeMs: timeMs})
+				}
+				sendAndBatch := func() {
+					txCounter++
+					do(&HubOp{Kind: 1, Sender: userAddr(u).String(), Chain: ch, Recipient: ethAddrOf(0xe0, rng.Intn(3)), Denom: t.Denom,
+						Amount: big.NewInt(int64(100000 + rng.Intn(1000))), Fee: big.NewInt(int64(1 + rng.Intn(5))), TxBytes: []byte(fmt.Sprintf("tx%d", txCounter))})
+					do(&HubOp{Kind: 3, Sender: userAddr(u).String(), Chain: ch, Denom: t.Denom})
+				}
+				other := func(h uint64) {
+					run.nextNonce[ch]++
+					extHeight[ch] = h
+					do(&HubOp{Kind: 4, Chain: ch, Ev: &HubEvent{Kind: 4, Nonce: run.nextNonce[ch], Height: h}})
+				}
+				// an observation to project from, then the quiet stretch
+				blk()
+				other(extHeight[ch] + 1)
+				do(&HubOp{Kind: 6})
+				for i := 0; i < 12+rng.Intn(10); i++ {
+					blk()
+					do(&HubOp{Kind: 6})
+				}
+				blk()
+				sendAndBatch() // batch A
+				other(extHeight[ch] + 1)
+				do(&HubOp{Kind: 6})
+				blk()
+				sendAndBatch() // batch B
+				var tb uint64
+				for _, b := range batchesOf(ch) {
+					if b.ExternalTokenId == t.ExternalTokenId && (tb == 0 || b.Timeout < tb) && b.Timeout > 0 {
+						tb = b.Timeout
+					}
+				}
+				if tb > extHeight[ch] {
+					other(tb + 1)
+				}
+				do(&HubOp{Kind: 6})
+				blk()
+				do(&HubOp{Kind: 6})
+				inBlock = false
+				stats["non_monotone_timeouts"]++
+			}
+			continue
+		}
 		if !inBlock && quietLeft > 0 && funding == 0 && rng.Chance(1, 6) && len(batchesOf("ethereum"))+len(batchesOf("bsc")) > 0 {
 			// a quiet stretch: batches wait for a relayer while no event of their chain is observed; hub blocks
 			// (and hub time) go by, the external height known to the hub does not move
@@ -562,14 +656,16 @@ func runHubCase(seed uint64, nOps int, hostile bool, gov bool, restart bool, sta
 			ts := tokensOn(ch)
 			coin := "0xdeadbeefdeadbeefdeadbeefdeadbeefdeadbeef"
 			dec := 18
+			var dtok *types.TokenInfo
 			if len(ts) > 0 && rng.Chance(19, 20) {
 				t := ts[rng.Intn(len(ts))]
 				coin, dec = t.ExternalTokenId, int(t.ExternalDecimals)
+				dtok = t
 			} else if ch == "minter" {
 				coin = "777"
 			}
 			n, h := nextEvent(ch)
-			amt := genAmount(rng, dec, hostile)
+			amt := capDeposit(dtok, genAmount(rng, dec, hostile))
 			if hostile && rng.Chance(1, 10) {
 				amt = big.NewInt(0)
 			}
@@ -590,7 +686,7 @@ func runHubCase(seed uint64, nOps int, hostile bool, gov bool, restart bool, sta
 			t := ts[rng.Intn(len(ts))]
 			rch := allChains[rng.Intn(4)]
 			n, h := nextEvent(ch)
-			amt := genAmount(rng, int(t.ExternalDecimals), hostile)
+			amt := capDeposit(t, genAmount(rng, int(t.ExternalDecimals), hostile))
 			fee := new(big.Int).Div(amt, big.NewInt(int64(2+rng.Intn(200))))
 			if rng.Chance(1, 5) {
 				fee = big.NewInt(0)
@@ -653,9 +749,12 @@ func runHubCase(seed uint64, nOps int, hostile bool, gov bool, restart bool, sta
 			if rng.Chance(1, 6) { // equal fees
 				fee = big.NewInt(int64(1 + rng.Intn(3)))
 			}
+			if rng.Chance(1, 5) { // a skewed spread: many small fees and a few large ones in one batch
+				fee = new(big.Int).Mul(big.NewInt([]int64{10, 10, 10, 100, 1000}[rng.Intn(5)]), pow10(rng.Intn(3)*6))
+			}
 			txCounter++
 			tx := []byte(fmt.Sprintf("tx%d", txCounter))
-			if lastTx != nil && rng.Chance(1, 12) {
+			if lastTx != nil && rng.Chance(1, 7) {
 				tx = lastTx // second message of the same transaction
 			}
 			lastTx = tx
@@ -700,11 +799,12 @@ func runHubCase(seed uint64, nOps int, hostile bool, gov bool, restart bool, sta
 			bs := batchesOf(ch)
 			coin := ""
 			bn := uint64(1 + rng.Intn(4))
+			hostileExec := hostile && !consistentExec // executions the contract / the multisig could not have made
 			maxH := uint64(0)
 			// the external side only executes what it can: on ethereum/bsc a batch whose nonce is above the
 			// token's last executed nonce; on Minter the oldest pending batch (multisig nonce order)
 			sort.Slice(bs, func(i, j int) bool { return bs[i].BatchNonce < bs[j].BatchNonce })
-			if !hostile {
+			if !hostileExec {
 				var ok []*types.BatchTx
 				for _, b := range bs {
 					if ch == "minter" {
@@ -717,13 +817,13 @@ func runHubCase(seed uint64, nOps int, hostile bool, gov bool, restart bool, sta
 				}
 				bs = ok
 			}
-			if len(bs) > 0 && (rng.Chance(9, 10) || !hostile) {
+			if len(bs) > 0 && (rng.Chance(9, 10) || !hostileExec) {
 				b := bs[rng.Intn(len(bs))]
 				if directed && rng.Chance(2, 3) {
 					b = bs[len(bs)-1]
 				}
 				coin, bn = b.ExternalTokenId, b.BatchNonce
-				if ch != "minter" && !hostile {
+				if ch != "minter" && !hostileExec {
 					maxH = b.Timeout - 1 // the contract requires block.number < timeout
 				}
 				if ch == "minter" {
@@ -732,7 +832,7 @@ func runHubCase(seed uint64, nOps int, hostile bool, gov bool, restart bool, sta
 					lastExec[ch+"|"+coin] = bn
 				}
 			} else {
-				if !hostile {
+				if !hostileExec {
 					continue
 				}
 				ts := tokensOn(ch)
